@@ -2,6 +2,8 @@
 
 _NF = 'exactly_lib/impls/types/files_matcher/impl/matches/matches_non_full.py'
 
+_MODELS = 'exactly_lib/impls/types/files_matcher/models.py'
+
 MUTANTS = [
     ('c15-nonfull-matcher-inverted', 'C15', _NF,
      "                    if not matching_result.value:", "                    if matching_result.value:",
@@ -23,4 +25,20 @@ MUTANTS = [
      "        if len(self.files_condition.files) == 0:\n            return self._result_true()",
      "        if len(self.files_condition.files) == 0:\n            return MatchingResult(False, None)",
      'matches_non_full:_Applier.apply : ensures[the documented verdict of matches (non-full)'),
+    ('c15-nonrec-absolute-path-is-the-root', 'C15', _MODELS,
+     "                                         pathlib.Path(dir_entry.name),\n"
+     "                                         root_dir_path.child(dir_entry.name))",
+     "                                         pathlib.Path(dir_entry.name),\n"
+     "                                         root_dir_path)",
+     '_FilesGeneratorForNonRecursive.generate : ensures[the direct contents of the directory'),
+    ('c15-nonrec-scans-the-parent', 'C15', _MODELS,
+     "        return map(mk_model, os.scandir(str(root_dir_path.primitive)))",
+     "        return map(mk_model, os.scandir(str(root_dir_path.primitive.parent)))",
+     '_FilesGeneratorForNonRecursive.generate : ensures[the direct contents of the directory'),
+    ('c15-nonrec-relative-name-prefixed', 'C15', _MODELS,
+     "                                         pathlib.Path(dir_entry.name),\n"
+     "                                         root_dir_path.child(dir_entry.name))",
+     "                                         pathlib.Path('.') / 'x' / dir_entry.name,\n"
+     "                                         root_dir_path.child(dir_entry.name))",
+     '_FilesGeneratorForNonRecursive.generate : ensures[the direct contents of the directory'),
 ]
